@@ -113,6 +113,12 @@ def make_case(prop, seed, i, tier):
     #   json_resume / backward_first: see below; resume edits parameters in place between pause and resume
     #   in 40 % of its cases
     variant = pick_variant(prop, rng)
+    if variant == "edits" and len(spec["sim"]["absence"]) < 2 and rng.random() < 0.6:
+        # the edits start from a run that has project absence steps of its own (often not in ascending order)
+        ab = rng.sample(range(0, 14), rng.randint(2, 4))
+        if rng.random() < 0.5:
+            ab.sort()
+        spec["sim"]["absence"] = ab
     if prop == "C13" and variant == "backward_first":
         # conveyor links matter here: both directions of the same links are exercised on the same objects
         for k in range(1, len(spec["wps"])):
